@@ -188,9 +188,7 @@ func handshakeBytes(h hsCase, v *victim, self, expected core.PeerID, rng *rand.R
 	case "garbage":
 		return frame(garbage), false
 	case "oversize":
-		l := make([]byte, 4)
-		binary.BigEndian.PutUint32(l, maxMsg+1)
-		return l, false
+		return oversizePrefix(v, rng), true
 	case "trunc":
 		return frame(make([]byte, 100))[:14], true
 	}
@@ -237,6 +235,21 @@ func handshakeBytes(h hsCase, v *victim, self, expected core.PeerID, rng *rand.R
 		bf.RemoteBitfieldBytes = map[string][]byte{third.String(): bitfieldBytes("long_set", rng)}
 	}
 	return enc(&p2p.Message{Type: p2p.Message_BITFIELD, Bitfield: bf}), false
+}
+
+// oversizePrefix is a length prefix above the 32 KiB message cap: just above it (leech victims), far above it
+// (256 MiB, seed victims) or somewhere in the next MiB (origins).
+func oversizePrefix(v *victim, rng *rand.Rand) []byte {
+	n := uint32(maxMsg + 1)
+	switch v.kind {
+	case "seed":
+		n = 256 << 20
+	case "origin":
+		n += uint32(rng.Intn(1 << 20))
+	}
+	l := make([]byte, 4)
+	binary.BigEndian.PutUint32(l, n)
+	return l
 }
 
 // concrete index of an idx class in the victim's current piece state; ok=false when the class is empty.
@@ -292,9 +305,7 @@ func messageBytes(c msgCase, pi int, v *victim, rng *rand.Rand) []byte {
 	case "garbage":
 		return frame(garbage)
 	case "oversize":
-		l := make([]byte, 4)
-		binary.BigEndian.PutUint32(l, maxMsg+1+uint32(rng.Intn(1<<20)))
-		return l
+		return oversizePrefix(v, rng)
 	case "trunc":
 		return frame(make([]byte, 200))[:4+rng.Intn(100)]
 	case "unknown":
